@@ -66,7 +66,7 @@ def run(cmd, cwd=None, timeout=None, env=None, input=None):
 def build_harness():
     """cargo build of the harness against /repo's current working tree, hooks on."""
     with Lock("cargo"):
-        r = run(["cargo", "build", "--offline"], cwd=os.path.join(ROOT, "harness"), timeout=1200)
+        r = run(["cargo", "build", "--offline", "--target-dir", os.path.join(WORK, "harness-target")], cwd=os.path.join(ROOT, "harness"), timeout=1200)
         if r.returncode != 0:
             raise Broken("harness build failed (the hook module or a public type changed shape):\n" + r.stderr[-3000:])
 
